@@ -96,7 +96,6 @@ func genC15sign(r *rand.Rand, n int, emit func(string)) {
 	}
 }
 
-
 // genC15: compact strings produced by the harness's own signer, intact and tampered, verified
 // under the signing key and under other keys of the same and of different type.
 func genC15(r *rand.Rand, n int, emit func(string)) {
